@@ -112,7 +112,7 @@ def generate(rng, idx, tier, variant):
                 'interrupt': interrupt,
             }
         )
-    return {'spec': spec, 'pokes': pokes, 'ops': ops}
+    return {'spec': spec, 'pokes': pokes, 'ops': ops, 'np_err': rng.choice(['default'] * 6 + ['ignore', 'warn', 'raise', 'raise'])}
 
 
 shrink_lists = ['ops', 'pokes']
